@@ -383,6 +383,18 @@ def reg5(ctx: Ctx) -> None:
         ctx.R.undecided("REG-5", "the decorator form is not chosen by `target is None` any more")
     # ---- liveness in customize_it: an option that is never read there has no effect (this is F3)
     reads = {n.id for n in ast.walk(it) if isinstance(n, ast.Name) and isinstance(n.ctx, ast.Load)}
+    # other hooks registered by customize (a flags-only variant, ...), the option handed to register() itself, and
+    # closure aliases (`fallback = PRUNE if prune else None`, `user_hook = elaborate`) count as reads too
+    for q2, f2 in cm.defs.items():
+        if q2.startswith("customize.") and f2 is not it and isinstance(f2, ast.FunctionDef) and any("elaborate_frame.register" in norm(d) for d in f2.decorator_list):
+            reads |= {n.id for n in ast.walk(f2) if isinstance(n, ast.Name) and isinstance(n.ctx, ast.Load)}
+    for c in calls_in(fn, True):
+        if norm(c.func) == "elaborate_frame.register" or (isinstance(c.func, ast.Call) and norm(c.func.func) == "elaborate_frame.register"):
+            reads |= {n.id for a_ in list(c.args) + [k.value for k in c.keywords] for n in ast.walk(a_) if isinstance(n, ast.Name)}
+    for _ in range(3):
+        for a_ in ast.walk(fn):
+            if isinstance(a_, ast.Assign) and len(a_.targets) == 1 and isinstance(a_.targets[0], ast.Name) and a_.targets[0].id in reads and cm.enclosing_def(a_) is fn:
+                reads |= {n.id for n in ast.walk(a_.value) if isinstance(n, ast.Name)}
     for o in opts:
         if o not in reads:
             ctx.R.fail("REG-5", cm, it, f"option `{o}` is never read by the registered hook: it has no effect on matching frames", construct=f"effect of {o}")
@@ -421,7 +433,9 @@ def reg5(ctx: Ctx) -> None:
                 ctx.R.undecided("REG-5", f"store to {fparam}.{o} present but not in a recognised `if {o}:` shape")
     # elaborate: its result must be returned whenever it is not None
     if "elaborate" in reads:
-        ecalls = [c for c in ast.walk(it) if isinstance(c, ast.Call) and norm(c.func) == "elaborate"]
+        ealiases = {"elaborate"} | {a_.targets[0].id for a_ in ast.walk(fn) if isinstance(a_, ast.Assign) and len(a_.targets) == 1 and isinstance(a_.targets[0], ast.Name)
+                                    and isinstance(a_.value, ast.Name) and a_.value.id == "elaborate" and cm.enclosing_def(a_) is fn}
+        ecalls = [c for c in ast.walk(it) if isinstance(c, ast.Call) and norm(c.func) in ealiases]
         if not ecalls:
             ctx.R.fail("REG-5", cm, it, "the elaborate callback is never called", construct="effect of elaborate")
         else:
@@ -476,6 +490,10 @@ def reg5(ctx: Ctx) -> None:
                 okp = okp or any(norm(gx) == "prune" and pol for gx, pol in guards_of(cm, r, it))
         if okp:
             ctx.R.ok("REG-5", "otherwise PRUNE iff prune")
+        elif not prets and any(isinstance(a_, ast.Assign) and cm.enclosing_def(a_) is fn and "PRUNE" in norm(a_.value) and "prune" in norm(a_.value)
+                               and isinstance(a_.targets[0], ast.Name) and any(isinstance(n_, ast.Name) and n_.id == a_.targets[0].id for r_ in ast.walk(it) if isinstance(r_, ast.Return) and r_.value is not None for n_ in ast.walk(r_.value))
+                               for a_ in ast.walk(fn)):
+            ctx.R.undecided("REG-5", "PRUNE reaches the hook's return through a closure variable computed from `prune`")
         elif not prets:
             ctx.R.fail("REG-5", cm, it, "option `prune` is read but PRUNE is never returned", construct="effect of prune")
         else:
